@@ -1021,7 +1021,7 @@ fn main() {
     let (ce4, c) = (k[0].clone(), k[2].clone());
 
     // ---- witnesses of the pre-survey findings, replayed on every run
-    // F09 (fixed by 9371536): remove, then add / update the same phrase -> visible again
+    // F09 (fixed by 20fd01a): remove, then add / update the same phrase -> visible again
     for file in [false, true] {
         let s = vec![
             Op::Add(ce4.clone(), "測".into(), 1, Some(2)),
@@ -1059,7 +1059,7 @@ fn main() {
     // MaxCodePointPhrase (known): a pending phrase beginning with U+10FFFF is enumerated but never looked up
     let s = vec![Op::Add(ce4.clone(), "\u{10FFFF}".into(), 1, Some(0))];
     guarded(&mut cx, "MaxCodePointPhrase witness", |cx| run_triebuf(cx, &p, &mut Rng::new(1), false, Some((vec![ce4.clone()], s)), 0));
-    // F11 (fixed by 5ab0621): first n of a 4-phrase leaf
+    // F11 (fixed by 4e93dec): first n of a 4-phrase leaf
     let es: Vec<E> = ["測", "冊", "a", "é"].iter().map(|t| (ce4.clone(), t.to_string(), 1u32, None)).collect();
     guarded(&mut cx, "F11 witness", |cx| run_trie(cx, &p, &mut Rng::new(1), Some((vec![ce4.clone(), c.clone()], es))));
 
